@@ -84,6 +84,10 @@ pub struct RunResult {
     pub backed_token_across_push: bool,
     /// an \endinput was executed in a file that still has further lines (the stop is early)
     pub endinput_before_last_line: bool,
+    /// \input was executed while a macro body (a token list of several tokens) still had tokens left
+    pub input_from_macro_body_with_rest: bool,
+    /// a macro body of more than 32 tokens was expanded inside an input file (not the main file)
+    pub big_expansion_in_input_file: bool,
 }
 
 pub struct InputMachine<'a> {
@@ -133,6 +137,8 @@ impl<'a> InputMachine<'a> {
                 force_eof_closed_other_file: false,
                 backed_token_across_push: false,
                 endinput_before_last_line: false,
+                input_from_macro_body_with_rest: false,
+                big_expansion_in_input_file: false,
             },
             budget: 200_000,
         }
@@ -234,6 +240,9 @@ impl<'a> InputMachine<'a> {
             };
             if let Some(body) = self.macros.get(name) {
                 let body = body.clone();
+                if body.len() > 32 && self.open_files() >= 2 {
+                    self.r.big_expansion_in_input_file = true;
+                }
                 self.stack.push(Entry::Toks { toks: body, pos: 0 }); // §389 macro_call, no parameters
                 continue;
             }
@@ -314,6 +323,9 @@ impl<'a> InputMachine<'a> {
         };
         if self.open_files() >= self.max_open {
             return Err(Stop::TooManyInputs);
+        }
+        if self.stack.iter().any(|e| matches!(e, Entry::Toks { toks, pos } if toks.len() > 1 && *pos < toks.len())) {
+            self.r.input_from_macro_body_with_rest = true;
         }
         if let Some(Entry::File { src, .. }) = self.stack.iter().rev().find(|e| matches!(e, Entry::File { .. })) {
             if !src.line_exhausted() {
